@@ -281,6 +281,59 @@ def show_term(b, op):
     return o[0]
 
 
+def cmp_keys(F, b):
+    """The sequence of comparison keys of an Ord::cmp written as `a.cmp(b).then_with(|| ..).then_with(|| ..).reverse()`."""
+    def label(t):
+        txt = show(t)
+        import re as _re
+        m = _re.match(r"^cmp\((.*)\)$", txt)
+        if not m:
+            return "?" + txt[:40]
+        # split the two sides at the top-level comma
+        depth, cut = 0, None
+        for i, ch in enumerate(m.group(1)):
+            if ch in "({":
+                depth += 1
+            elif ch in ")}":
+                depth -= 1
+            elif ch == "," and depth == 0:
+                cut = i
+                break
+        if cut is None:
+            return "?" + txt[:40]
+        a, c = m.group(1)[:cut].strip(), m.group(1)[cut + 1:].strip()
+        norm = lambda x: _re.sub(r"\b(arg1\.self|arg1\.other|arg1|arg2|…)\.", "", x)
+        fa, fb = norm(a), norm(c)
+        if fa != fb or not (("self" in a or "arg1" in a) and ("other" in c or "arg2" in c)) and "…" not in a:
+            return "?" + txt[:40]
+        for pat, lab in ((r"^map\(as_ref\(target\), alloc::string::String::len\)$", "target.len"), (r"^len\((\w+)\)$", r"\1.len"), (r"^is_some\((\w+)\)$", r"\1.is_some"),
+                         (r"^index\((\w+), RangeFull\{\}\)$", r"\1"), (r"^(\w+)$", r"\1")):
+            mm = _re.match(pat, fa)
+            if mm:
+                return mm.expand(lab)
+        return "?" + fa[:40]
+
+    def walk(body, t):
+        if t[0] == "call" and t[1].endswith("::reverse") and t[2]:
+            return walk(body, t[2][0])
+        if t[0] == "call" and t[1].endswith("::then_with") and len(t[2]) == 2:
+            left = walk(body, t[2][0])
+            cl = t[2][1]
+            cp = cl[1][len("closure:"):] if cl[0] == "agg" and str(cl[1]).startswith("closure:") else None
+            cb = F.body(cp) if cp else None
+            if cb is None:
+                return left + ["?closure"]
+            rets = [q.ret for q in PathEval(cb).run() if q.end == "return"]
+            return left + (walk(cb, rets[0]) if len(rets) == 1 else ["?multi"])
+        if t[0] == "call" and t[1].endswith("::then") and len(t[2]) == 2:
+            return walk(body, t[2][0]) + walk(body, t[2][1])
+        return [label(t)]
+    rets = [q.ret for q in PathEval(b).run() if q.end == "return"]
+    if len(rets) != 1:
+        return ["?multi"]
+    return walk(b, rets[0])
+
+
 def r4(ck, F):
     for fn, nm in (("<%s as core::cmp::Ord>::cmp" % SD, "StaticDirective"), ("<%sdirective::Directive as core::cmp::Ord>::cmp" % E, "Directive")):
         b = F.body(fn)
@@ -294,6 +347,16 @@ def r4(ck, F):
             txt = r[0]
             core = txt[txt.index("cmp(map(as_ref("):] if "cmp(map(as_ref(" in txt else ""
             first = core.startswith("cmp(map(as_ref(") and "String::len" in core.split("{closure")[0]
+        # the whole key sequence: "most specific first" is target length, then (span name present,) then the number of
+        # field constraints -- all before the lexicographic tie-breakers, each comparing self's component with other's
+        want_prefix = ["target.len", "field_names.len"] if nm == "StaticDirective" else ["target.len", "in_span.is_some", "fields.len"]
+        keys = cmp_keys(F, b)
+        kkey = "%s: specificity keys %s come first, in this order" % (nm, want_prefix)
+        if keys[:len(want_prefix)] == want_prefix and not any(k.startswith("?") for k in keys):
+            ck.ok("C11.R4", kkey, fn=b.path, detail=keys)
+        else:
+            ck.bad("C11.R4", kkey, where(b.raw["sp"]), "cmp compares %s: a directive with more field constraints (or a span name) no longer sorts before a less specific one "
+                   "whenever the lexicographic tie-break disagrees, and the first match stops being the most specific" % keys, fn=b.path)
         if ok and first:
             ck.ok("C11.R4", "%s: compares target length first and reverses the result" % nm, fn=b.path)
         else:
